@@ -595,7 +595,7 @@ func runC04(c *Ctx) {
 
 	// the same transfers when the instruction is supplied by a mode-0 interrupting device
 	// (target and condition come from the supplied bytes, never from the bytes at PC)
-	var im0N int64
+	var im0N, im0Skipped int64
 	{
 		r := mon.NewRng(uint64(c.Seed) ^ 0xC04D)
 		mem := &mon.Mem{}
@@ -636,6 +636,13 @@ func runC04(c *Ctx) {
 					defer func() { pan = recover() }()
 					cpu.Step()
 				}()
+				if len(mem.Log) > 0 && mem.Log[0].Kind == 'R' && mem.Log[0].Addr == pre.PC {
+					// this Step began by fetching the program's own instruction (an implementation
+					// that samples requests at the END of an instruction): whether it may is C06's
+					// subject; the supplied instruction cannot be judged in isolation here
+					im0Skipped++
+					continue
+				}
 				im0N++
 				taken := true
 				if op&0xc7 == 0xc2 || op&0xc7 == 0xc4 || op&0xc7 == 0xc0 {
@@ -707,6 +714,7 @@ func runC04(c *Ctx) {
 		}
 	}
 	c.R.Set("steps_supplied_by_a_mode0_device", im0N)
+	c.R.Set("mode0_steps_not_judged_program_instruction_ran_first", im0Skipped)
 	evals += im0N
 
 	c.R.Set("evaluations", evals+laws)
